@@ -373,14 +373,17 @@ def step (st : St) (ws : List String) : St × String :=
         ({ st with hash := some h' }, s!"{r.toNat} {used}")
     | none => (st, "bad-op")
   | ["blockat", spec, hx] =>
-    -- random access on a real file: `spec` = `check,offset,cap;…` (one entry per Block, offsets from the index);
-    -- answer per Block: `ret consumed compressed hex(out)` of `RandomAccess.blockAt` with the model of the real decoder
+    -- random access on a real file: `spec` = `check,offset,cap,len;…` (one entry per Block, offsets and total sizes from the
+    -- index); the model sees the file from `offset` on, cut `len + 64` bytes later (a Block and some of what follows; the
+    -- cut only bounds the cost per Block). Answer per Block: `ret consumed compressed hex(out)` of `RandomAccess.blockAt`
+    -- with the model of the real decoder.
     match bytesOfHex hx with
     | some bs =>
+      let arr := bs.toArray
       let one (e : String) : String :=
         match (e.splitOn ",").map String.toNat? with
-        | [some check, some off, some cap] =>
-          let r := RandomAccess.blockAt XzEnv.fastEnv check false (bs.drop off) cap
+        | [some check, some off, some cap, some len] =>
+          let r := RandomAccess.blockAt XzEnv.fastEnv check false (arr.extract off (off + len + 64)).toList cap
           s!"{r.ret.toNat} {r.consumed} {r.compressed} {hexOfBytes r.out}"
         | _ => "bad-entry"
       (st, " | ".intercalate ((spec.splitOn ";").map one))
